@@ -29,6 +29,44 @@ Theorem c26_unwrap : forall h osn rest padding tail ppt pssrc,
 Proof. exact unwrap_ok. Qed.
 Print Assumptions c26_unwrap.
 
+(* c26_unwrap for histories.  Packets arrive and are read one after the other:
+   primary packets (any bytes; TrackRemote.checkAndUpdateTrack moves the
+   track's payload type to the packet's when the media engine [known]s it) and
+   repair packets (any bytes, well-formed or not).  A well-formed repair packet
+   at ANY position of ANY history comes out restored with the primary stream's
+   CURRENT payload type - that of the last primary packet before it whose
+   payload type is known, or the initial one - and the track's SSRC; everything
+   else as in c26_unwrap.  [known] is arbitrary. *)
+Theorem c26_unwrap_history : forall known st evs1 evs2 h osn rest padding tail,
+  hdr_ok h -> pad_ok h (be_bytes 2 osn ++ rest) padding ->
+  st_pt st < 128 -> st_ssrc st < 4294967296 ->
+  N.of_nat (length (packet h (be_bytes 2 osn ++ rest) padding)) < 65536 ->
+  nth_error
+    (rtx_history known st
+       (evs1 ++ EvRtx (packet h (be_bytes 2 osn ++ rest) padding ++ tail)
+                      (N.of_nat (length (packet h (be_bytes 2 osn ++ rest) padding))) :: evs2))
+    (length evs1)
+  = Some (ObsRtx (Ok (Some (mkRtxOut
+      (packet (restore h osn (current_pt known (st_pt st) evs1) (st_ssrc st)) rest padding)
+      (h_pt h) (h_seq h) (h_ssrc h))))).
+Proof. exact unwrap_history. Qed.
+Print Assumptions c26_unwrap_history.
+
+(* the track state the unwrap reads: after any history the payload type is the
+   specification's current one (and stays below 128), the SSRC has not moved *)
+Theorem c26_history_state : forall known st evs,
+  st_pt (rtx_state_after known st evs) = current_pt known (st_pt st) evs /\
+  st_ssrc (rtx_state_after known st evs) = st_ssrc st /\
+  (st_pt st < 128 -> current_pt known (st_pt st) evs < 128).
+Proof. exact history_state. Qed.
+Print Assumptions c26_history_state.
+
+(* c26_no_panic for histories *)
+Theorem c26_history_no_panic : forall known st evs,
+  Forall event_in_domain evs -> ~ In (ObsRtx Panic) (rtx_history known st evs).
+Proof. exact history_no_panic'. Qed.
+Print Assumptions c26_history_no_panic.
+
 (* fewer than two payload bytes (after removing the padding): ignored *)
 Theorem c26_short_dropped : forall h payload padding tail ppt pssrc,
   hdr_ok h -> pad_ok h payload padding -> (length payload < 2)%nat ->
@@ -60,6 +98,21 @@ Example c26_unwrap_example :
       [178; 224; 18; 52; 0; 1; 95; 144; 0; 0; 4; 87; 1; 2; 3; 4; 5; 6; 7; 8;
        190; 222; 0; 1; 16; 170; 0; 0; 9; 8; 7; 0; 0; 3] 97 513 2222)).
 Proof. reflexivity. Qed.
+
+(* VP8/96 -> VP9/98 mid-session: the repair packet after the switch carries 98
+   (first byte of the second line: 128 + 98 = 226), the one before it 96 *)
+Example c26_history_example :
+  let rtx := packet ex_hdr (be_bytes 2 4660 ++ [9; 8; 7]) [0; 0; 3] ++ [165; 165] in
+  let prim pt := [128; pt; 0; 1; 0; 0; 0; 0; 0; 0; 4; 87; 1; 2] in
+  map (fun o => match o with
+                | ObsRtx (Ok (Some r)) => firstn 2 (o_pkt r)
+                | _ => []
+                end)
+      (rtx_history (fun p => existsb (N.eqb p) [96; 97; 98; 99]) (mkRtxState 0 1111 false)
+         [EvRtx rtx 36; EvPrimary (prim 96) 14; EvRtx rtx 36; EvPrimary (prim 98) 14;
+          EvRtx rtx 36; EvPrimary (prim 111) 14; EvRtx rtx 36])
+  = [[178; 128]; []; [178; 224]; []; [178; 226]; []; [178; 226]].
+Proof. vm_compute. reflexivity. Qed.
 
 (* the bound 1 <= i of c26_no_panic is tight in the model *)
 Example c26_zero_length_read :
